@@ -397,6 +397,9 @@ def check_r5(facts, rep, crate, inter):
             # called once per received frame
             idx = inter.call_index()
             callers = idx.callers.get(b.dp, [])
+            if any(callee(t2) and callee(t2)["name"] in ("poll_recv", "recv", "try_recv") for _b2, t2 in b.calls()):
+                # the counting code is written inline in the body that receives the frame: the "call site" is the counting code itself
+                callers = [(b, gb, b.term(gb))]
             if len(callers) != 1:
                 rep.bad(rid, "counter-callers", where, "the counting function has %d call sites, expected exactly one (per received frame)" % len(callers))
             else:
